@@ -213,11 +213,11 @@ func (in *Interp) callFn(caller *frame, fn *ssa.Function, args []Val) Val {
 		return nil
 	}
 	if m := in.W.lookupModel(fn); m != nil {
-		in.W.noteModel(fn)
+		in.modelsUsed[fn.String()]++
 		return m(in, caller, fn, args)
 	}
 	if hm := in.W.harnessModel(fn); hm != nil {
-		in.W.noteModel(fn)
+		in.modelsUsed[fn.String()+" (harness model "+hm.Name()+")"]++
 		return in.callSSA(caller, hm, args, nil)
 	}
 	if len(fn.Blocks) == 0 {
@@ -244,7 +244,7 @@ func (in *Interp) callSSA(caller *frame, fn *ssa.Function, args []Val, env []Val
 	for i, fv := range fn.FreeVars {
 		fr.env[info.idx[fv]] = env[i]
 	}
-	in.W.noteFn(fn)
+	in.fnsUsed[fn]++
 	th := in.cur
 	savedTop := th.top
 	th.top = fr
